@@ -192,6 +192,20 @@ let cmd_divcsr t =
     rng := rng'; out_list res; out_str ";") rows;
   out_sep (); out_list !rng
 
+(* prune maxd m data[m] *)
+let cmd_prune t =
+  let maxd = next_int t in let m = next_int t in
+  let data = next_list t m in
+  out_list (degree_prune_row data (nat_of_int maxd))
+
+(* sgchk n k maxdeg knn_i[n*k] knn_d[n*k] vorder[n] then n rows: len entries *)
+let cmd_sgchk t =
+  let n = next_int t in let k = next_int t in let maxdeg = next_int t in
+  let ki = next_mat t n k in let kd = next_mat t n k in
+  let vo = next_list t n in
+  let sg = List.init n (fun _ -> next_zlist t) in
+  out_int (if search_graph_chk (nat_of_int n) ki kd sg vo (nat_of_int maxdeg) then 1 else 0)
+
 (*DISPATCH-BEGIN*)
 let dispatch : (string * (toks -> unit)) list = [
   ("heapseq", cmd_heapseq);
@@ -206,6 +220,8 @@ let dispatch : (string * (toks -> unit)) list = [
   ("initheap", cmd_initheap);
   ("divfwd", cmd_divfwd);
   ("divcsr", cmd_divcsr);
+  ("prune", cmd_prune);
+  ("sgchk", cmd_sgchk);
 ]
 (*DISPATCH-END*)
 
